@@ -158,7 +158,17 @@ class Ctx:
         return r
 
     def feasible(self, cond):
-        r = self._check(zbool(cond))
+        fr = getattr(self, 'feasibility_rlimit', None)
+        if fr:
+            # contexts with quantified assumptions: a satisfiable branch is rarely *shown* satisfiable (no model construction
+            # under quantifiers), so do not spend the full budget on it - `unknown` keeps the branch and marks the path uncertain
+            self.solver.set('rlimit', fr)
+            try:
+                r = self._check(zbool(cond))
+            finally:
+                self.solver.set('rlimit', Z3_RLIMIT)
+        else:
+            r = self._check(zbool(cond))
         if r == z3.unknown:
             self.unknown_feasible += 1
             self.uncertain = True
